@@ -95,10 +95,10 @@ def step (_ : Unit) (line : String) : Unit × String :=
   | some [.atom "handles", rc, .list (.atom "lanes" :: ls), .list (.atom "entries" :: es)] =>
     match boolA rc, lanesOf ls, natsOf es with
     | some rc, some lanes, some entries =>
-      let extra := (lanes.filter (·.2)).map fun p => JT.node taskSlow [.int p.1.b] (.int p.1.b) true []
+      let extra := (lanes.filter (·.2)).map fun p => JT.node taskSlow [.int p.1.b] [.int p.1.b] (.int p.1.b) true []
       let t := handleTree rc (lanes.map (·.1)) entries extra
       match t with
-      | .node _ _ r _ _ => ((), reply r (rows H.le t))
+      | .node _ _ _ r _ _ => ((), reply r (rows H.le t))
     | _, _, _ => ((), "bad-value")
   | some [.atom "fork", .list (.atom "tbl" :: tb), .list [.atom "a", na, aa], .list [.atom "b", nb, ab], seen] =>
     match tblOf tb, natA na, intA aa, natA nb, intA ab, boolA seen with
@@ -106,7 +106,7 @@ def step (_ : Unit) (line : String) : Unit × String :=
       let P := tableProg tbl
       match evalC P 200 (.call na (.lit (.int aa))), evalC P 200 (.call nb (.lit (.int ab))) with
       | some (_, ka), some (vb, kb) =>
-        let t := JT.node taskFork [] vb true (ka.map (JT.setSeen seen) ++ kb)
+        let t := JT.node taskFork [] [] vb true (ka.map (JT.setSeen seen) ++ kb)
         ((), (if dupInL P (ka ++ kb) then "dup " else "") ++ reply vb (rows H.le t))
       | _, _ => ((), "fuel")
     | _, _, _, _, _, _ => ((), "bad-value")
